@@ -103,6 +103,9 @@ def run_shards(binary, chk, tier, seed, replay=None):
                    VERIF_FAILDIR=faildir, VERIF_BUDGET_S=str(cfg["budget_s"]), VERIF_SHARD=str(i),
                    VERIF_NSHARDS=str(nshards), VERIF_ROOT=ROOT, VERIF_GO=go_bin(), VERIF_SEED=str(seed))
         env["TMPDIR"] = wd
+        if chk.get("crashcap"):
+            env["VERIF_CRASHCAP"] = chk["id"]
+            env["VERIF_CRASHCAP_FILE"] = os.path.join(wd, "current-case.json")
         if replay:
             env["VERIF_REPLAY"] = os.path.abspath(replay)
         elif i == 0:
@@ -133,9 +136,53 @@ def run_shards(binary, chk, tier, seed, replay=None):
             except Exception as e:
                 problems.append("unreadable result file %s: %s" % (of, e))
         else:
-            tail = open(os.path.join(wd, "log.txt")).read()[-3000:]
-            problems.append("no result file from shard %s (exit %s); log tail:\n%s" % (wd, p.returncode, tail))
+            logtxt = open(os.path.join(wd, "log.txt")).read()
+            crash = crash_violation(chk, wd, logtxt, faildir) if chk.get("crashcap") else None
+            if crash:
+                outs.append(crash)
+            else:
+                problems.append("no result file from shard %s (exit %s); log tail:\n%s" % (wd, p.returncode, logtxt[-3000:]))
     return outs, problems, tmp
+
+
+def crash_violation(chk, wd, logtxt, faildir):
+    """The test binary died. If the panicking goroutine's innermost non-runtime frame is refinery code (not the
+    harness) and the case in flight was captured, this is a violation of the property by that case: the process
+    crashed. Returns a synthetic shard result, or None when the crash cannot be attributed to refinery."""
+    import re, hashlib
+    m = re.search(r"^(panic: .*|fatal error: .*)$", logtxt, re.M)
+    cur = os.path.join(wd, "current-case.json")
+    if not m or not os.path.isfile(cur):
+        return None
+    after = logtxt[m.start():]
+    g = re.search(r"^goroutine \d+ .*\[running\]:\n((?:.+\n)+)", after, re.M)
+    frames = re.findall(r"^([\w./\-]+(?:\(\*?[\w\[\]., ]+\))?[\w.\[\]\-]*)\(", g.group(1) if g else after, re.M)
+    first = next((f for f in frames if f.startswith("github.com/honeycombio/refinery/")), None)
+    if not first or "verifharness" in first:
+        return None
+    fn = first.replace("github.com/honeycombio/refinery/", "")
+    kind = "panic" if m.group(1).startswith("panic") else "fatal"
+    sig = "%s/process-crash/%s@%s" % (chk["id"], kind, fn)
+    detail = "the test binary (= the refinery process) died: %s in %s\n%s" % (m.group(1)[:300], first, after[:1500])
+    try:
+        case = json.load(open(cur))
+    except Exception:
+        return None
+    body = dict(property=chk["id"], signature=sig, detail=detail, case=case.get("case"))
+    h = hashlib.sha1(json.dumps(body["case"], sort_keys=True).encode()).hexdigest()[:16]
+    rp = os.path.join(faildir, "%s-crash-%s.json" % (chk["id"], h))
+    if not os.environ.get("VERIF_REPO"):
+        json.dump(body, open(rp, "w"), indent=1)
+    known = []
+    try:
+        known = json.load(open(merged_known(wd)))["findings"]
+    except Exception:
+        pass
+    for k in known:
+        ks = k.get("signature", "")
+        if k.get("property") == chk["id"] and k.get("status") == "known" and (ks == sig or (ks.endswith("*") and sig.startswith(ks[:-1]))):
+            return dict(id=chk["id"], evaluations=1, known_hits={ks: 1}, known_what={ks: k.get("what", "")})
+    return dict(id=chk["id"], evaluations=1, violations=[dict(signature=sig, detail=detail, replay=rp)])
 
 
 def merge(outs):
